@@ -84,8 +84,11 @@ func (i IntegratedRunner) Run(cmd string, stream iostream.IOStream, task string,
 
 	// os.Environ() is added to env so that if nothing is passed, the
 	// process environment is used, but if we do pass env vars these
-	// are added as well as all the normal process env vars
-	env = append(env, os.Environ()...)
+	// are added as well as all the normal process env vars.
+	// The process environment must come first: when a name appears twice the
+	// interpreter keeps the last one, and the variables we were given must win
+	// over whatever happens to be set in the process environment or a .env file
+	env = append(os.Environ(), env...)
 
 	var result Result
 	result.Cmd = cmd
